@@ -13,13 +13,18 @@ pub struct Shape {
     pub pc: Vec<u8>,
     pub rc: Vec<u8>,
     pub kc: Vec<u8>,
+    /// a second group of changes behind `mc` lines of context in the middle of the hunk: `r2` removed, `k2` added lines
+    /// (all three empty for the ordinary one-group shapes)
+    pub mc: Vec<u8>,
+    pub r2: Vec<u8>,
+    pub k2: Vec<u8>,
     pub sc: Vec<u8>,
 }
 
 impl Shape {
     fn old(&self, rev: bool) -> Vec<u8> {
-        let core = if rev { &self.kc } else { &self.rc };
-        self.pc.iter().chain(core.iter()).chain(self.sc.iter()).cloned().collect()
+        let (core, core2) = if rev { (&self.kc, &self.k2) } else { (&self.rc, &self.r2) };
+        self.pc.iter().chain(core.iter()).chain(self.mc.iter()).chain(core2.iter()).chain(self.sc.iter()).cloned().collect()
     }
     fn p(&self) -> usize {
         self.pc.len()
@@ -31,8 +36,8 @@ impl Shape {
         self.render(old_start, new_start, out)
     }
     fn render(&self, old_start: usize, new_start: usize, out: &mut Vec<u8>) {
-        let oc = self.pc.len() + self.rc.len() + self.sc.len();
-        let nc = self.pc.len() + self.kc.len() + self.sc.len();
+        let oc = self.pc.len() + self.rc.len() + self.mc.len() + self.r2.len() + self.sc.len();
+        let nc = self.pc.len() + self.kc.len() + self.mc.len() + self.k2.len() + self.sc.len();
         out.extend_from_slice(format!("@@ -{},{} +{},{} @@\n", old_start, oc, new_start, nc).as_bytes());
         for c in &self.pc {
             out.push(b' ');
@@ -43,6 +48,18 @@ impl Shape {
             out.extend(sym_line(*c));
         }
         for c in &self.kc {
+            out.push(b'+');
+            out.extend(sym_line(*c));
+        }
+        for c in &self.mc {
+            out.push(b' ');
+            out.extend(sym_line(*c));
+        }
+        for c in &self.r2 {
+            out.push(b'-');
+            out.extend(sym_line(*c));
+        }
+        for c in &self.k2 {
             out.push(b'+');
             out.extend(sym_line(*c));
         }
@@ -228,7 +245,33 @@ pub fn shapes(maxctx: usize, maxcore: usize) -> Vec<Shape> {
                         for rc in seqs_exact(r, 2) {
                             for kc in seqs_exact(k, 2) {
                                 for sc in seqs_exact(s, 2) {
-                                    v.push(Shape { pc: pc.clone(), rc: rc.clone(), kc: kc.clone(), sc });
+                                    v.push(Shape { pc: pc.clone(), rc: rc.clone(), kc: kc.clone(), mc: vec![], r2: vec![], k2: vec![], sc });
+                                }
+                            }
+                        }
+                    }
+                }
+            }
+        }
+    }
+    v
+}
+
+/// hunks with two groups of changes and context between them: what counts as leading and trailing context is what stands
+/// before the first and behind the last changed line, whatever kind of line that is
+pub fn shapes_two_groups() -> Vec<Shape> {
+    let mut v = vec![];
+    for p in 0..=1usize {
+        for s in 0..=1usize {
+            for m in 1..=2usize {
+                for (r, k, r2, k2) in [(1usize, 0usize, 0usize, 1usize), (0, 1, 1, 0), (1, 1, 0, 1), (0, 1, 0, 1), (1, 0, 1, 0), (1, 0, 1, 1)] {
+                    for pc in seqs_exact(p, 2) {
+                        for rc in seqs_exact(r, 2) {
+                            for mc in seqs_exact(m, 2) {
+                                for r2c in seqs_exact(r2, 2) {
+                                    for sc in seqs_exact(s, 2) {
+                                        v.push(Shape { pc: pc.clone(), rc: rc.clone(), kc: vec![2; k], mc: mc.clone(), r2: r2c.clone(), k2: vec![2; k2], sc });
+                                    }
                                 }
                             }
                         }
@@ -241,8 +284,7 @@ pub fn shapes(maxctx: usize, maxcore: usize) -> Vec<Shape> {
 }
 
 fn class_of(sh: &Shape, clause: &str, nh: usize) -> String {
-    let _ = sh;
-    format!("{}{}", clause, if nh > 1 { "-second-hunk" } else { "" })
+    format!("{}{}{}", clause, if nh > 1 { "-second-hunk" } else { "" }, if sh.mc.is_empty() { "" } else { "-two-groups-of-changes" })
 }
 
 fn witness(txt: &[u8], fbytes: &[u8], rev: bool, fmax: usize, detail: &str, o: &Result<Applied, ApplyErr>) -> J {
@@ -331,7 +373,7 @@ fn sweep_two(file: &[u8], second: &[Shape], n: usize, fcap: usize, lean: bool, r
                 continue;
             }
             for delta1 in (if lean { 0..=0isize } else { -2..=2isize }) {
-                let h1 = Shape { pc: file[i1 - c1..i1].to_vec(), rc: vec![file[i1]], kc: vec![2], sc: file[i1 + 1..i1 + 1 + c1].to_vec() };
+                let h1 = Shape { pc: file[i1 - c1..i1].to_vec(), rc: vec![file[i1]], kc: vec![2], mc: vec![], r2: vec![], k2: vec![], sc: file[i1 + 1..i1 + 1 + c1].to_vec() };
                 let true1 = (i1 - c1) as isize;
                 let st1 = true1 + 1 + delta1;
                 if st1 < 1 {
@@ -445,8 +487,8 @@ fn sweep_three(file: &[u8], third: &[Shape], rep: &mut Report) {
         for i2 in (i1 + 2)..(i1 + 4).min(n) {
             for d1 in [-2isize, -1, 1, 2] {
                 for d2 in [-2isize, -1, 1, 2] {
-                    let h1 = Shape { pc: vec![], rc: vec![file[i1]], kc: vec![2], sc: vec![] };
-                    let h2 = Shape { pc: vec![], rc: vec![file[i2]], kc: vec![2], sc: vec![] };
+                    let h1 = Shape { pc: vec![], rc: vec![file[i1]], kc: vec![2], mc: vec![], r2: vec![], k2: vec![], sc: vec![] };
+                    let h2 = Shape { pc: vec![], rc: vec![file[i2]], kc: vec![2], mc: vec![], r2: vec![], k2: vec![], sc: vec![] };
                     let (st1, st2) = (i1 as isize + 1 + d1, i2 as isize + 1 + d2);
                     if st1 < 1 || st2 < 1 {
                         continue;
@@ -522,7 +564,7 @@ fn sweep_ctxfree(file: &[u8], n: usize, rep: &mut Report) {
     for core in seqs_upto(2, 2).into_iter().filter(|c| !c.is_empty()) {
         for stated in 1..=(n + 2) {
             for &rev in &[false, true] {
-                let sh = if rev { Shape { pc: vec![], rc: vec![], kc: core.clone(), sc: vec![] } } else { Shape { pc: vec![], rc: core.clone(), kc: vec![], sc: vec![] } };
+                let sh = if rev { Shape { pc: vec![], rc: vec![], kc: core.clone(), mc: vec![], r2: vec![], k2: vec![], sc: vec![] } } else { Shape { pc: vec![], rc: core.clone(), kc: vec![], mc: vec![], r2: vec![], k2: vec![], sc: vec![] } };
                 let mut txt = b"--- f\n+++ f\n".to_vec();
                 if rev {
                     sh.render(0, stated, &mut txt);
@@ -564,7 +606,9 @@ pub fn run(args: &[String]) {
     let fcap: usize = args.get(2).and_then(|s| s.parse().ok()).unwrap_or(3);
     let n2: usize = args.get(3).and_then(|s| s.parse().ok()).unwrap_or(4);
     let files = seqs_upto(n, 2);
-    let sh = shapes(maxctx, 2);
+    let mut sh = shapes(maxctx, 2);
+    let n_one_group = sh.len();
+    sh.extend(shapes_two_groups());
     let second = shapes(1, 1);
     let files2: Vec<Vec<u8>> = seqs_upto(n2, 2).into_iter().filter(|f| !f.is_empty()).collect();
     let n1 = sh.len();
@@ -593,7 +637,8 @@ pub fn run(args: &[String]) {
         ("max_file_len", J::u(n as u64)),
         ("max_context", J::u(maxctx as u64)),
         ("max_fuzz_limit", J::u(fcap as u64)),
-        ("hunk_shapes", J::u(n1 as u64)),
+        ("hunk_shapes", J::u(n_one_group as u64)),
+        ("hunk_shapes_two_groups", J::u((n1 - n_one_group) as u64)),
         ("two_hunk_files", J::u(files2.len() as u64)),
         ("two_hunk_long_files", J::u(nf2l as u64)),
         ("two_hunk_long_file_len", J::u(n2long as u64)),
